@@ -88,6 +88,11 @@ def tuple_coherence(ctx, prog, R, opt, iter_idx, restore_attr, rule_id="R1"):
         if "u" in stores and "u" not in need:
             need = ["u"] + need
         ok = True
+        part = [a for a in VALUE_ATTRS if a not in {x[0] for x in b["vals"]}]
+        if part:
+            ctx.fail(fn, first, f"the incumbent is swapped to history index {idx} but self.{', self.'.join(part)} keep(s) the value of the previous incumbent: "
+                     f"the observed value / estimate / SD that are reported (and appended to the final samples) belong to different points", construct=f"swap to HIST[{idx}] without self.{part[0]}")
+            ok = False
         for a in need:
             if a not in stores:
                 ctx.fail(fn, first, f"the incumbent's value/estimate/SD are swapped to history index {idx} but the point slot self.{a} is not assigned in the same block: "
